@@ -95,9 +95,13 @@ def cases(draw, isa, archs, kernels):
     # look-alike mov-immediates also inside the kernel (never as its first line: a .byte line directly after the
     # start marker's bytes would belong to the marker; never a complete marker)
     inner = [d for d in DECOYS[isa] if not d.startswith(".byte")]
+    # (a second look-alike is never put between the lines of the first: a marker mov slipped between another mov
+    # and its .byte line would make a complete, real marker)
+    chunks = [[l] for l in body]
     for _ in range(draw(st.sampled_from([0, 0, 1, 2]))):
-        pos = draw(st.integers(1, len(body)))
-        body[pos:pos] = draw(st.sampled_from(inner)).split("\n")
+        pos = draw(st.integers(1, len(chunks)))
+        chunks[pos:pos] = [draw(st.sampled_from(inner)).split("\n")]
+    body = [l for ch in chunks for l in ch]
     # a decoy that ends in a bare marker mov must not be followed directly by a .byte line of the real marker
     style = draw(st.sampled_from(["oneline", "separate", "comment", "oneline-commented"]))
     if pro and pro[-1].split("\n")[-1].startswith(("movl $111, %ebx", "movl $222, %ebx", "mov x1, #111", "mov x1, #222")):
@@ -134,6 +138,14 @@ def check_case(case):
 
     isa = case["isa"]
     sm, em = markers(isa, case["style"])
+    # safety net of the generator: a complete marker inside prologue, body or epilogue is another file than intended
+    mv_ = ("movl $111, %ebx", "movl $222, %ebx") if isa == "x86" else ("mov x1, #111", "mov x1, #222")
+    by_ = ".byte 100,103,144" if isa == "x86" else ".byte 213,3,32,31"
+    for part in (case["body"], [x for d in case["pro"] for x in d.split("\n")],
+                 [x for d in case["epi"] for x in d.split("\n")]):
+        if any(part[i].strip() in mv_ and part[i + 1].strip() == by_ for i in range(len(part) - 1)):
+            return {"nontrivial": False, "classes": ["skipped-generated-part-contains-a-real-marker"],
+                    "excluded": {"generated-part-contains-a-real-marker": 1}}
     pro_lines = [x for d in case["pro"] for x in d.split("\n")]
     epi_lines = [x for d in case["epi"] for x in d.split("\n")]
     lines = [""] * case["blank"] + pro_lines + sm + case["body"] + em + epi_lines
